@@ -73,6 +73,13 @@ def enumerate_cases(tier):
         rec = pgen.make_table([1] * len(vals), [vals], ndata=2, page_by_levels=1, header=hdr, nrow=nrow)
         rec["strategy"] = "page_by"
         yield rec
+    # a missing value in the wide first column, a wrapping text in the narrow second one
+    for rel, nrow, k in itertools.product(([4, 1], [3, 1], [5, 2]), (6, 9), (2, 3)):
+        n = 16
+        rec = pgen.make_table([k if i % 2 else 1 for i in range(n)], None, ndata=2, header="explicit", nrow=nrow, rel_widths=rel,
+                              tall_cols=[1] * n, null_cells={f"{i},0" for i in range(n)})
+        rec["strategy"] = "plain"
+        yield rec
     # the same long text in a wide and in a narrow column of one row (1 line there, several here), unequal widths
     from .. import metrics
     for rel, nrow in itertools.product(([1, 4, 1], [1, 1, 4], [2, 5, 1], [1, 6, 2]), (6, 9, 12)):
